@@ -1049,7 +1049,7 @@ def correspondence(ctx):
                                                 class_liveness=len(cases) % 8 == 0, close_hook=HOOKS[(len(cases) // 3) % 4])
                 cases.append((done, snaps, errs, tag, n, kinds))
             return emit
-        d1, d2 = ctx.budget((5, 5), (6, 6))
+        d1, d2 = ctx.budget((5, 4), (6, 6))
         n1, full1 = exhaustive(1, d1, ALPHABET_1, emit_for(1, "exhaustive-1obj"), t0 + ctx.budget(30, 400))
         n2, full2 = exhaustive(2, d2, ALPHABET_2, emit_for(2, "exhaustive-2obj"), time.time() + ctx.budget(30, 200))
         nf, fullf = exhaustive(1, d1, ALPHABET_F, emit_for(1, "exhaustive-failed-sends"), time.time() + ctx.budget(12, 200))
@@ -1057,7 +1057,7 @@ def correspondence(ctx):
         c.extra["exhaustive_1obj"] = dict(depth=d1, histories=n1, complete=full1)
         c.extra["exhaustive_2obj"] = dict(depth=d2, histories=n2, complete=full2)
         n_rand = ctx.budget(2000, 40000)
-        rand_deadline = time.time() + ctx.budget(18, 420)
+        rand_deadline = time.time() + ctx.budget(12, 420)
         done_rand = 0
         for i in range(n_rand):
             if time.time() > rand_deadline:
